@@ -64,7 +64,7 @@ Proof.
       unfold cval, wval. destruct v; rewrite ?Zlen_cons; rewrite H; reflexivity. }
     rewrite E. unfold w_open, w_close. rewrite !Zlen_app.
     change (Zlen [60;60]) with 2. change (Zlen [62;62]) with 2.
-    destruct ind as [[|k]|]; cbn [Zlen length w_nl w_ind repeat]; lia.
+    destruct ind as [[|k]|]; cbn [w_nl w_ind repeat]; unfold Zlen; cbn [length]; lia.
   - intros l H ind. destruct ind as [k|].
     + rewrite wc_list_some, wv_list_some. rewrite !Zlen_app, Zlen_repeat.
       rewrite (Zlen_flat_map (witem_s k) (citem_s k)).
